@@ -26,14 +26,31 @@ pub struct C18;
 // ---------------------------------------------------------------------------
 // histories
 
-/// (pattern, flags, inputs used with it, replacement)
-const POOL: [(&str, &str, [&str; 2], &str); 5] = [
+/// (pattern, flags, inputs used with it, replacement). The first five entries
+/// exercise every piece of mutable state; the rest are pairs that a lossy
+/// process-wide cache key would confuse (flags that look like a pattern prefix,
+/// same pattern under different flags, same text under the other dialect).
+const POOL: [(&str, &str, [&str; 2], &str); 11] = [
     ("(a)(b)?", "", ["aab", "xab"], "<$1|$2>"),
     ("(?:a?|b)*c", "", ["cabc", "aab"], "<$0>"),
     ("(a)\\1|b", "i", ["aAb", "ab"], "<$1>"),
     ("\\p{IsGreek}+|a", "", ["\u{3b1}\u{3b2}a", "xab"], "[$0]"),
     ("^a|b", "m", ["a\nab", "aab"], "<$0>"),
+    ("bc", "i", ["aBC", "xibcx"], "-"),
+    ("ibc", "", ["aBC", "xibcx"], "-"),
+    ("a.c", "s", ["a\nc", "abc"], "<$0>"),
+    ("a.c", "", ["a\nc", "abc"], "<$0>"),
+    ("^a|b", "", ["a\nab", "aab"], "<$0>"),
+    ("^a|b", ";xsd", ["a\nab", "^ab"], "<$0>"),
 ];
+
+fn pool_flags(p: usize) -> (&'static str, bool) {
+    if POOL[p].1 == ";xsd" {
+        ("", true)
+    } else {
+        (POOL[p].1, false)
+    }
+}
 
 const MAX_OBJS: usize = 2;
 const MAX_ITERS: usize = 2;
@@ -70,7 +87,8 @@ impl Drop for World {
 }
 
 fn compile_pool(p: usize) -> Option<Regex> {
-    match imp::compile(POOL[p].0, POOL[p].1, false) {
+    let (flags, xsd) = pool_flags(p);
+    match imp::compile(POOL[p].0, flags, xsd) {
         Out::Ok(r) => Some(r),
         _ => None,
     }
@@ -84,7 +102,7 @@ fn show_step(s: &Step, w: Option<&World>) -> String {
         }
     };
     match s {
-        Step::Compile(p) => format!("compile({:?},{:?})", POOL[*p].0, POOL[*p].1),
+        Step::Compile(p) => format!("compile({:?},{:?}{})", POOL[*p].0, pool_flags(*p).0, if pool_flags(*p).1 { ", xsd" } else { "" }),
         Step::IsMatch(o, i) => format!("is_match({}, input#{})", pat_of(*o), i),
         Step::Replace(o, i) => format!("replace_all({}, input#{})", pat_of(*o), i),
         Step::OpenTok(o, i) => format!("open tokenize({}, input#{})", pat_of(*o), i),
@@ -203,8 +221,90 @@ impl World {
     }
 }
 
-/// The observation of the same step executed alone on a freshly compiled Regex.
+/// Key of a step for the solo-observation table.
+fn solo_key(w: &World, s: Step) -> Option<String> {
+    Some(match s {
+        Step::Compile(p) => format!("c{}", p),
+        Step::IsMatch(o, i) => format!("m{}:{}", w.objs[o].0, i),
+        Step::Replace(o, i) => format!("r{}:{}", w.objs[o].0, i),
+        Step::OpenTok(o, i) => format!("ot{}:{}", w.objs[o].0, i),
+        Step::OpenAn(o, i) => format!("oa{}:{}", w.objs[o].0, i),
+        Step::StepIt(k) => {
+            let li = w.iters[k].as_ref().unwrap();
+            format!("s{}:{}:{}:{}", li.pat, li.api, li.input, li.steps + 1)
+        }
+        Step::DropIt(_) => return None,
+    })
+}
+
+const SOLO_MAX_STEPS: usize = 12;
+
+/// `rxmc c18solo <p>`: print the solo observation of every step that involves
+/// pool pattern p, computed in this (pristine) process.
+pub fn solo_table_main(p: usize) {
+    let mut cache = HashMap::new();
+    let mut emit = |k: String, v: String| println!("{}\t{}", k, crate::util::vis(&v));
+    let mut w = World::new();
+    emit(format!("c{}", p), w.exec(Step::Compile(p)));
+    for i in 0..2 {
+        for s in [Step::IsMatch(0, i), Step::Replace(0, i), Step::OpenTok(0, i), Step::OpenAn(0, i)] {
+            let k = solo_key(&w, s).unwrap();
+            let v = solo_inproc(&mut cache, &w, s);
+            emit(k, v);
+        }
+        for api in ["tokenize", "analyze"] {
+            let mut fresh = World::new();
+            fresh.exec(Step::Compile(p));
+            fresh.exec(if api == "tokenize" { Step::OpenTok(0, i) } else { Step::OpenAn(0, i) });
+            if fresh.iters.is_empty() {
+                continue;
+            }
+            for n in 1..=SOLO_MAX_STEPS {
+                let v = fresh.exec(Step::StepIt(0));
+                emit(format!("s{}:{}:{}:{}", p, api, i, n), v);
+            }
+        }
+    }
+}
+
+static SOLO_TABLE: std::sync::OnceLock<HashMap<String, String>> = std::sync::OnceLock::new();
+
+/// The solo observations of all steps, computed once per worker in pristine
+/// subprocesses (one per pool pattern), so that process-wide state of the
+/// implementation (caches, lazily built tables) cannot leak into the oracle.
+fn solo_table() -> &'static HashMap<String, String> {
+    SOLO_TABLE.get_or_init(|| {
+        let mut t = HashMap::new();
+        let exe = std::env::current_exe().expect("current exe");
+        for p in 0..POOL.len() {
+            let out = std::process::Command::new(&exe).arg("c18solo").arg(p.to_string()).output();
+            if let Ok(o) = out {
+                for line in String::from_utf8_lossy(&o.stdout).lines() {
+                    if let Some((k, v)) = line.split_once('\t') {
+                        t.insert(k.to_string(), crate::util::unvis(v));
+                    }
+                }
+            }
+        }
+        t
+    })
+}
+
+/// The observation of the same step executed alone on a freshly compiled
+/// Regex in a pristine process.
 fn solo(cache: &mut HashMap<String, String>, w: &World, s: Step) -> String {
+    match solo_key(w, s) {
+        None => "dropped".to_string(),
+        Some(k) => match solo_table().get(&k) {
+            Some(v) => v.clone(),
+            // beyond the precomputed number of iterator steps: in-process fallback
+            None => solo_inproc(cache, w, s),
+        },
+    }
+}
+
+/// In-process variant (used to build the table and as a fallback).
+fn solo_inproc(cache: &mut HashMap<String, String>, w: &World, s: Step) -> String {
     let key = match s {
         Step::Compile(p) => format!("c{}", p),
         Step::IsMatch(o, i) => format!("m{}:{}", w.objs[o].0, i),
@@ -267,11 +367,13 @@ fn build(history: &[Step]) -> (World, Vec<String>) {
 fn history_depth(tier: Tier) -> usize {
     match tier {
         Tier::Quick => 4,
-        Tier::Thorough => 6,
+        Tier::Thorough => 5,
     }
 }
 
-/// All histories of length 2 (chunk prefixes), in deterministic order.
+/// Chunk prefixes in deterministic order: all histories of length 2, followed
+/// by the seeded iterator prefixes [compile P, open iterator, next] of length 3
+/// (explored three / four steps further, i.e. to depth 6 / 7 on that family).
 fn prefixes() -> Vec<Vec<Step>> {
     let mut out = vec![];
     let w0 = World::new();
@@ -279,6 +381,12 @@ fn prefixes() -> Vec<Vec<Step>> {
         let (w1, _) = build(&[a]);
         for b in w1.enabled() {
             out.push(vec![a, b]);
+        }
+    }
+    for p in 0..POOL.len() {
+        for i in 0..2 {
+            out.push(vec![Step::Compile(p), Step::OpenTok(0, i), Step::StepIt(0)]);
+            out.push(vec![Step::Compile(p), Step::OpenAn(0, i), Step::StepIt(0)]);
         }
     }
     out
@@ -679,7 +787,7 @@ impl Check for C18 {
                 }
             }),
             description: format!(
-                "(a) every history of up to {} API steps (compile, is_match, replace_all, open tokenize/analyze, next, drop) over a pool of {} patterns x 2 inputs with at most {} live Regex objects and {} live iterators, full step tree without state merging, each step compared with the same step run alone on a fresh Regex; (b) {} thread scenarios on shared Regex objects under a controlled scheduler (scheduling points = engine tick hooks), all schedules with preemption bounds {:?}; (c) compile-time probe Regex: Send + Sync",
+                "(a) every history of up to {} API steps (plus the seeded family [compile, open iterator, next] explored two steps deeper) (compile, is_match, replace_all, open tokenize/analyze, next, drop) over a pool of {} patterns x 2 inputs with at most {} live Regex objects and {} live iterators, full step tree without state merging, each step compared with the same step run alone on a fresh Regex; (b) {} thread scenarios on shared Regex objects under a controlled scheduler (scheduling points = engine tick hooks), all schedules with preemption bounds {:?}; (c) compile-time probe Regex: Send + Sync",
                 depth,
                 POOL.len(),
                 MAX_OBJS,
@@ -730,13 +838,16 @@ impl Check for C18 {
                     h0.push(*s);
                 }
             }
-            if depth > 2 {
+            if pre.len() == 3 {
+                // seeded iterator family: three (quick) / four (thorough) further steps
+                dfs(&mut st, &mut history, depth - 1);
+            } else if depth > 2 {
                 dfs(&mut st, &mut history, depth - 2);
             }
             let n = st.distinct.len() as u64;
             st.out.max("distinct_step_observations_in_a_chunk", n);
             st.out.add("nontrivial", n);
-            st.out.sample(J::obj(vec![("history_prefix", J::s(encode_history(&pre[..1], pre[1]))), ("explored_to_depth", J::i(depth))]));
+            st.out.sample(J::obj(vec![("history_prefix", J::s(encode_history(&pre[..pre.len() - 1], pre[pre.len() - 1]))), ("explored_to_depth", J::i(if pre.len() == 3 { depth + 2 } else { depth }))]));
             return;
         }
         if chunk < np + scs.len() as u64 * nb {
